@@ -306,3 +306,26 @@ func VerifH_C17_bulk() {
 	verifAssert(p.Pos() == q+2 || err != nil, "position")
 	verifReach("done")
 }
+
+// VerifH_C17_slice: ReadUint16Slice with a length word in the windows around 0, 512 (the buffer size in words),
+// 2^15 and 2^16: the call returns exactly the announced number of words when the file holds them and fails
+// with an error (never a shorter or zero-filled slice) otherwise.
+func VerifH_C17_slice() {
+	L := []int{6, 1030, 5000}[verifChoose("len", 3)]
+	data := verifBytes("file", L)
+	n := int(data[0])<<8 | int(data[1])
+	lo := []int{0, 510, 0x7FFE, 0xFFFC}[verifChoose("window", 4)]
+	verifAssume(n >= lo && n <= lo+5)
+	p := New(&verifRSS{data: data})
+	vals, err := p.ReadUint16Slice()
+	verifReach("done")
+	if 2+2*n <= L {
+		verifAssert(err == nil && len(vals) == n, "all announced words are returned")
+		for i := 0; i < len(vals) && i < 3; i++ {
+			verifAssert(vals[i] == uint16(data[2+2*i])<<8|uint16(data[3+2*i]), "words in file order")
+		}
+		verifAssert(p.Pos() == int64(2+2*n), "position behind the array")
+	} else {
+		verifAssert(err != nil, "an array that passes the end of the input is an error")
+	}
+}
